@@ -32,16 +32,18 @@ TRUSTED = ['py2v translator (harness/py2v.py), extended for subscripts, bisect, 
            'refuses data whose untils/offsets are not whole ms or whose float expressions are not exact',
            'correspondence cases are written as Coq primitive 63-bit integers (Uint63) and converted to Z inside '
            'vm_compute; no theorem depends on them']
-ASSUMPTIONS = ['zone data = the 594 zones of tzdata.data as moment.Zone holds them at run time (regenerated each run)',
+ASSUMPTIONS = ['zoned date round trip: the date exists in the zone (decidable date_exists; false only for the whole days '
+               'skipped at date-line changes, where no instant has that date)',
+               'zone data = the 594 zones of tzdata.data as moment.Zone holds them at run time (regenerated each run)',
                'timestamps are exact multiples of 1 us; every integer instant is covered, no range bound']
 TECHNIQUE = ('Coq proof over a model translated from source (py2v) and zone data regenerated from tzdata.data on every '
              'run (vm_compute over all zones) + differential cases against real datetime objects + impl oracle')
 LEVEL_TEXT = ('Kernel-checked theorems: every bundled zone passes a boolean interval check (vm_compute over the regenerated '
               'data) that is proved to imply dt_to_ts(ts_to_dt(ts, zone)) = ts for ALL integer instants, that every local '
               'time (ambiguous, skipped, any favor) gets the offset in effect at the instant it is mapped to or, when '
-              'skipped, the offset starting at the transition whose gap it falls in, and the UTC date round trip; the zoned '
-              'date round trip is refuted on the unchanged code (known finding) and proved under the hypothesis that '
-              'excludes the defect.')
+              'skipped, the offset starting at the transition whose gap it falls in, the UTC date round trip, and the zoned '
+              'date round trip (date_to_ts after fix 8feac94) for every bundled zone and every date that exists in the zone '
+              '(a second boolean per-zone check, vm_compute over the data); 7 zone/date pairs are whole skipped days.')
 LEVEL_NOTE = ('Trusted: Coq kernel + vm_compute, py2v translator and the hand-written datetime layer (both validated '
               'differentially each run), float rounding outside the integer model.')
 
@@ -368,6 +370,8 @@ def oracle_local(zd, l_us, favor_us):
   return None
 
 
+# the failure mode of the finding repaired by 8feac94 (entry C34-date-to-ts-zone-offset, now 'fixed': it
+# suppresses nothing, so a regression is a VIOLATION again)
 KNOWN_DATE_KIND = 'date-zone:offset-taken-at-utc-midnight'
 
 
@@ -479,8 +483,15 @@ def local_instants(ctx, zones, trans):
   return out
 
 
+# witnesses of repaired findings and other named dates, always run (first)
+DATE_CORPUS = [('Australia/Sydney', 20002),      # fixed 8feac94: came back as 2024-10-05 23:00
+               ('America/Sao_Paulo', 17454), ('Asia/Beirut', 19446), ('Africa/Abidjan', -21185),   # skipped midnights
+               ('Kwajalein', 8633), ('Pacific/Apia', 15338), ('Pacific/Kiritimati', 9130),          # skipped days
+               ('Europe/London', 19447), ('America/New_York', 19793)]
+
+
 def date_cases(ctx, zones, trans):
-  """[(zone, day)]: the dates around every picked transition, plus random dates."""
+  """[(zone, day)]: the regression corpus, the dates around every picked transition, plus random dates."""
   out = set()
   for zd, k in trans:
     day = zd.untils[k] // 86400000
@@ -490,7 +501,8 @@ def date_cases(ctx, zones, trans):
   for zd in zones:
     for _ in range(ctx.n(1, 6)):
       out.add((zd.name, ctx.rng.randrange(-25567, 25567)))
-  return [(byname[n], d) for n, d in sorted(out)]
+  corpus = [(n, d) for n, d in DATE_CORPUS if n in byname]
+  return [(byname[n], d) for n, d in corpus + sorted(out - set(corpus))]
 
 
 # ---------------------------------------------------------------------------------------------
